@@ -268,7 +268,11 @@ func explore(t *testing.T, l core.Lens, job *Job, emit func(rec)) {
 			f.Close()
 		}
 	}
-	emit(rec{"type": "summary", "runs": st.Runs, "nontrivial": st.Nontrivial, "distinct_nontrivial_local": len(st.hashes),
+	var assumptions []string
+	if a, ok := l.(core.Assumer); ok {
+		assumptions = a.Assumptions()
+	}
+	emit(rec{"type": "summary", "assumptions": assumptions, "runs": st.Runs, "nontrivial": st.Nontrivial, "distinct_nontrivial_local": len(st.hashes),
 		"distinct_schedules_local": len(st.schedules), "step_capped": st.StepCapped, "inconclusive": st.Inconclusive,
 		"det_compared": st.DetCompared, "det_matched": st.DetMatched, "steps": st.Steps, "switches": st.Switches, "sim_ns": st.SimNS,
 		"probes": st.Probes, "faults": st.Faults, "extra": st.Extra, "known_seen": st.KnownSeen, "samples": st.Samples,
